@@ -64,7 +64,7 @@ def run(sc):
                         if not nror: want_stored = [('the-id', True, None)] * (want_n - 1) + want_stored
                         if len(runs) == want_n and stored != want_stored: pr.append(f"C11: stored results {stored}, expected {want_stored} (no_result_on_retry={nror})")
                         if pr and len(fails) < 40: fails.append({'key': f"m={m}/{m_as_label}/{roe}/{nror}/{outcomes[:3]}", 'failed_clauses': pr})
-    return {'reproduced': bool(fails), 'runs': n, 'n_failures': len(fails), 'failures': fails[:5]}
+    return {'reproduced': bool(fails), 'runs': n, 'n_failures': len(fails), 'failures': fails[:400]}
 
 if __name__ == '__main__':
     sc = json.load(open(sys.argv[1])) if len(sys.argv) > 1 else {}
